@@ -3,14 +3,21 @@ import EE.Model.Registry
 code computes them: typed accessors first (left operand first), then the checked operation. -/
 namespace EE
 
+inductive DecOpClass | add | sub | mul | div | rem | unknown
+deriving DecidableEq, Repr
+def decOpClass (op : Name) : DecOpClass :=
+  if op = ['+'] then .add else if op = ['-'] then .sub else if op = ['*'] then .mul
+  else if op = ['/'] then .div else if op = ['%'] then .rem else .unknown
+
 /-- `checked_decimal_op` -/
 def decOp (op : Name) (a b : Dec) : Res Dec :=
-  if op = ['+'] then Dec.add a b
-  else if op = ['-'] then Dec.sub a b
-  else if op = ['*'] then Dec.mul a b
-  else if op = ['/'] then Dec.div a b
-  else if op = ['%'] then Dec.rem a b
-  else .err .notSupportedOp
+  match decOpClass op with
+  | .add => Dec.add a b
+  | .sub => Dec.sub a b
+  | .mul => Dec.mul a b
+  | .div => Dec.div a b
+  | .rem => Dec.rem a b
+  | .unknown => .err .notSupportedOp
 
 def i64min : Int := -9223372036854775808
 def i64max : Int := 9223372036854775807
@@ -18,16 +25,21 @@ def inI64 (n : Int) : Prop := i64min ≤ n ∧ n ≤ i64max
 
 def bv (n : Int) : BitVec 64 := BitVec.ofInt 64 n
 
+inductive IntOpClass | or | xor | and | shl | shr | unknown
+deriving DecidableEq, Repr
+def intOpClass (op : Name) : IntOpClass :=
+  if op = ['|'] then .or else if op = ['^'] then .xor else if op = ['&'] then .and
+  else if op = ['<', '<'] then .shl else if op = ['>', '>'] then .shr else .unknown
+
 /-- `checked_integer_op`: 64-bit two's complement; a shift count outside 0..=63 is an error. -/
 def intOp (op : Name) (a b : Int) : Res Int :=
-  if op = ['|'] then .ok (bv a ||| bv b).toInt
-  else if op = ['^'] then .ok (bv a ^^^ bv b).toInt
-  else if op = ['&'] then .ok (bv a &&& bv b).toInt
-  else if op = ['<', '<'] then
-    if 0 ≤ b ∧ b ≤ 63 then .ok (bv a <<< b.toNat).toInt else .err .invalidShiftCount
-  else if op = ['>', '>'] then
-    if 0 ≤ b ∧ b ≤ 63 then .ok ((bv a).sshiftRight b.toNat).toInt else .err .invalidShiftCount
-  else .err .notSupportedOp
+  match intOpClass op with
+  | .or => .ok (bv a ||| bv b).toInt
+  | .xor => .ok (bv a ^^^ bv b).toInt
+  | .and => .ok (bv a &&& bv b).toInt
+  | .shl => if 0 ≤ b ∧ b ≤ 63 then .ok (bv a <<< b.toNat).toInt else .err .invalidShiftCount
+  | .shr => if 0 ≤ b ∧ b ≤ 63 then .ok ((bv a).sshiftRight b.toNat).toInt else .err .invalidShiftCount
+  | .unknown => .err .notSupportedOp
 
 def decNames : List Name := [['+'], ['-'], ['*'], ['/'], ['%']]
 def intNames : List Name := [['|'], ['^'], ['&'], ['<', '<'], ['>', '>']]
@@ -44,26 +56,45 @@ def cmpOp (op : Name) (a b : Dec) : Bool :=
   else if op = ['>'] then Dec.lt b a
   else Dec.le b a
 
+/-- What kind of built-in an infix operator name denotes (the groups of `InfixOpManager::init`). -/
+inductive InfixClass where
+  | assign | decAssign (base : Name) | intAssign (base : Name) | or | and | cmp | eq | ne
+  | int | dec | beginWith | endWith | isIn | unknown
+deriving DecidableEq, Repr
+
+def infixClass (op : Name) : InfixClass :=
+  if op = ['='] then .assign
+  else if op.getLast? = some '=' ∧ decNames.contains op.dropLast then .decAssign op.dropLast
+  else if op.getLast? = some '=' ∧ intNames.contains op.dropLast then .intAssign op.dropLast
+  else if op = ['|', '|'] then .or
+  else if op = ['&', '&'] then .and
+  else if cmpNames.contains op then .cmp
+  else if op = ['=', '='] then .eq
+  else if op = ['!', '='] then .ne
+  else if intNames.contains op then .int
+  else if decNames.contains op then .dec
+  else if op = ['b', 'e', 'g', 'i', 'n', 'W', 'i', 't', 'h'] then .beginWith
+  else if op = ['e', 'n', 'd', 'W', 'i', 't', 'h'] then .endWith
+  else if op = ['i', 'n'] then .isIn
+  else .unknown
+
 /-- Built-in infix handlers. -/
 def builtinInfix (op : Name) (l r : Value) : Res Value :=
-  if op = ['='] then .ok r
-  else if op.getLast? = some '=' ∧ decNames.contains op.dropLast then decBin op.dropLast l r
-  else if op.getLast? = some '=' ∧ intNames.contains op.dropLast then intBin op.dropLast l r
-  else if op = ['|', '|'] then l.bool'.bind fun a => r.bool'.bind fun b => .ok (.bool (a || b))
-  else if op = ['&', '&'] then l.bool'.bind fun a => r.bool'.bind fun b => .ok (.bool (a && b))
-  else if cmpNames.contains op then
-    l.decimal.bind fun a => r.decimal.bind fun b => .ok (.bool (cmpOp op a b))
-  else if op = ['=', '='] then .ok (.bool (Value.beq l r))
-  else if op = ['!', '='] then .ok (.bool (!Value.beq l r))
-  else if intNames.contains op then intBin op l r
-  else if decNames.contains op then decBin op l r
-  else if op = ['b', 'e', 'g', 'i', 'n', 'W', 'i', 't', 'h'] then
-    l.string.bind fun a => r.string.bind fun b => .ok (.bool (b.isPrefixOf a))
-  else if op = ['e', 'n', 'd', 'W', 'i', 't', 'h'] then
-    l.string.bind fun a => r.string.bind fun b => .ok (.bool (b.isSuffixOf a))
-  else if op = ['i', 'n'] then
-    r.list'.bind fun items => .ok (.bool (items.any fun it => Value.beq it l))
-  else .err .infixOpNotRegistered
+  match infixClass op with
+  | .assign => .ok r
+  | .decAssign base => decBin base l r
+  | .intAssign base => intBin base l r
+  | .or => l.bool'.bind fun a => r.bool'.bind fun b => .ok (.bool (a || b))
+  | .and => l.bool'.bind fun a => r.bool'.bind fun b => .ok (.bool (a && b))
+  | .cmp => l.decimal.bind fun a => r.decimal.bind fun b => .ok (.bool (cmpOp op a b))
+  | .eq => .ok (.bool (Value.beq l r))
+  | .ne => .ok (.bool (!Value.beq l r))
+  | .int => intBin op l r
+  | .dec => decBin op l r
+  | .beginWith => l.string.bind fun a => r.string.bind fun b => .ok (.bool (b.isPrefixOf a))
+  | .endWith => l.string.bind fun a => r.string.bind fun b => .ok (.bool (b.isSuffixOf a))
+  | .isIn => r.list'.bind fun items => .ok (.bool (items.any fun it => Value.beq it l))
+  | .unknown => .err .infixOpNotRegistered
 
 /-- `AND`: false at the first false element; an element that is not a boolean is an error when reached. -/
 def allBool : List Value → Res Bool
@@ -73,18 +104,37 @@ def anyBool : List Value → Res Bool
   | [] => .ok false
   | v :: vs => v.bool'.bind fun b => if b then .ok true else anyBool vs
 
+inductive PrefixClass | neg | pos | not | all | any | unknown
+deriving DecidableEq, Repr
+
+def prefixClass (op : Name) : PrefixClass :=
+  if op = ['-'] then .neg
+  else if op = ['+'] then .pos
+  else if op = ['!'] ∨ op = ['n', 'o', 't'] then .not
+  else if op = ['A', 'N', 'D'] then .all
+  else if op = ['O', 'R'] then .any
+  else .unknown
+
 def builtinPrefix (op : Name) (v : Value) : Res Value :=
-  if op = ['-'] then (match v with | .num d => .ok (.num d.neg') | _ => .err .shouldBeNumber)
-  else if op = ['+'] then (match v with | .num d => .ok (.num d) | _ => .err .shouldBeNumber)
-  else if op = ['!'] ∨ op = ['n', 'o', 't'] then (match v with | .bool b => .ok (.bool (!b)) | _ => .err .shouldBeBool)
-  else if op = ['A', 'N', 'D'] then v.list'.bind fun l => (allBool l).bind fun b => .ok (.bool b)
-  else if op = ['O', 'R'] then v.list'.bind fun l => (anyBool l).bind fun b => .ok (.bool b)
-  else .err .prefixOpNotRegistered
+  match prefixClass op with
+  | .neg => (match v with | .num d => .ok (.num d.neg') | _ => .err .shouldBeNumber)
+  | .pos => (match v with | .num d => .ok (.num d) | _ => .err .shouldBeNumber)
+  | .not => (match v with | .bool b => .ok (.bool (!b)) | _ => .err .shouldBeBool)
+  | .all => v.list'.bind fun l => (allBool l).bind fun b => .ok (.bool b)
+  | .any => v.list'.bind fun l => (anyBool l).bind fun b => .ok (.bool b)
+  | .unknown => .err .prefixOpNotRegistered
+
+inductive PostfixClass | inc | dec | unknown
+deriving DecidableEq, Repr
+
+def postfixClass (op : Name) : PostfixClass :=
+  if op = ['+', '+'] then .inc else if op = ['-', '-'] then .dec else .unknown
 
 def builtinPostfix (op : Name) (v : Value) : Res Value :=
-  if op = ['+', '+'] then (match v with | .num d => (Dec.add d Dec.one).bind fun x => .ok (.num x) | _ => .err .shouldBeNumber)
-  else if op = ['-', '-'] then (match v with | .num d => (Dec.sub d Dec.one).bind fun x => .ok (.num x) | _ => .err .shouldBeNumber)
-  else .err .prefixOpNotRegistered
+  match postfixClass op with
+  | .inc => (match v with | .num d => (Dec.add d Dec.one).bind fun x => .ok (.num x) | _ => .err .shouldBeNumber)
+  | .dec => (match v with | .num d => (Dec.sub d Dec.one).bind fun x => .ok (.num x) | _ => .err .shouldBeNumber)
+  | .unknown => .err .prefixOpNotRegistered
 
 def minLoop : Option Dec → List Value → Res (Option Dec)
   | m, [] => .ok m
@@ -102,13 +152,19 @@ def foldDec (op : Name) : Dec → List Value → Res Dec
   | acc, [] => .ok acc
   | acc, v :: vs => v.decimal.bind fun d => (decOp op acc d).bind fun acc' => foldDec op acc' vs
 
+inductive FnClass | min | max | sum | mul | unknown
+deriving DecidableEq, Repr
+
+def fnClass (name : Name) : FnClass :=
+  if name = ['m', 'i', 'n'] then .min else if name = ['m', 'a', 'x'] then .max
+  else if name = ['s', 'u', 'm'] then .sum else if name = ['m', 'u', 'l'] then .mul else .unknown
+
 def builtinFn (name : Name) (args : List Value) : Res Value :=
-  if name = ['m', 'i', 'n'] then (minLoop none args).bind fun m =>
-    (match m with | some d => .ok (.num d) | none => .err .paramInvalid)
-  else if name = ['m', 'a', 'x'] then (maxLoop none args).bind fun m =>
-    (match m with | some d => .ok (.num d) | none => .err .paramInvalid)
-  else if name = ['s', 'u', 'm'] then (foldDec ['+'] Dec.zero args).bind fun d => .ok (.num d)
-  else if name = ['m', 'u', 'l'] then (foldDec ['*'] Dec.one args).bind fun d => .ok (.num d)
-  else .err .innerFunctionNotRegistered
+  match fnClass name with
+  | .min => (minLoop none args).bind fun m => (match m with | some d => .ok (.num d) | none => .err .paramInvalid)
+  | .max => (maxLoop none args).bind fun m => (match m with | some d => .ok (.num d) | none => .err .paramInvalid)
+  | .sum => (foldDec ['+'] Dec.zero args).bind fun d => .ok (.num d)
+  | .mul => (foldDec ['*'] Dec.one args).bind fun d => .ok (.num d)
+  | .unknown => .err .innerFunctionNotRegistered
 
 end EE
